@@ -21,3 +21,15 @@ func VerifEndpoints(app *App, savePath string) (instance *graph.Instance, parame
 	as := &AppServer{app: app, autosave: savePath != "", configPath: savePath}
 	return app.graphInstance, parameterValueEndpoint(app.graphInstance, saver), http.HandlerFunc(as.ProducerEndpoint)
 }
+
+// VerifInstance returns the App's graph instance (initialised from App.Files and the registered types).
+func VerifInstance(app *App) *graph.Instance {
+	app.initGraphInstance()
+	return app.graphInstance
+}
+
+// VerifSaver returns the real autosaver the server attaches to every editing endpoint.
+func VerifSaver(app *App, savePath string) *GraphSaver {
+	app.initGraphInstance()
+	return &GraphSaver{app: app, savePath: savePath}
+}
